@@ -381,8 +381,9 @@ def get_confirmed_edges_for_node(graph: nx.MultiDiGraph, node: DSGNode, include_
     if cache is not None:
         cache['conf_edge'] = conf_edges_cache = cache.get('conf_edge', {})
 
-        # Load from cache if available
+        # Load from cache if available (also register it as traversed, for nodes that reach this node once more)
         if node in conf_edges_cache:
+            _traversed[node] = conf_edges_cache[node].copy()
             return conf_edges_cache[node].copy()
 
     # Loop over outgoing edges
